@@ -44,6 +44,40 @@ func vh_C03_L1_decode() {
 	}
 }
 
+// C03.L1b: the decoder of each chunk type on its own. One chunk of each known type with a
+// value of every length 0..20 (0..12 for ABORT, ERROR and RE-CONFIG) and arbitrary content,
+// alone in a packet with a valid checksum: no runtime panic on any path (this reaches the
+// length guards of each per-type decoder, which arbitrary short buffers of L1 only reach
+// for the first few types).
+var vAllChunkTypes = []chunkType{ctPayloadData, ctIData, ctInit, ctInitAck, ctSack, ctHeartbeat, ctHeartbeatAck, ctAbort, ctShutdown, ctShutdownAck, ctError, ctCookieEcho, ctCookieAck, ctCWR, ctShutdownComplete, ctReconfig, ctForwardTSN, ctIForwardTSN}
+
+func vh_C03_L1_decode_each_chunk_type() {
+	vbound(24)
+	t := vAllChunkTypes[vPick(len(vAllChunkTypes))]
+	maxLen := 21
+	switch t {
+	case ctAbort, ctError, ctReconfig:
+		maxLen = 13 // nested cause / parameter lists: every further word multiplies the paths
+	}
+	vl := vPick(maxLen)
+	n := packetHeaderSize + chunkHeaderSize + vl + getPadding(vl)
+	raw := nondetBytes(n)
+	raw[12] = byte(t)
+	raw[14], raw[15] = 0, byte(chunkHeaderSize+vl)
+	vBoundSackCounts(raw)
+	vFixChecksum(raw)
+	p := &packet{}
+	if err := p.unmarshal(false, raw); err == nil {
+		vassert(len(p.chunks) == 1, "one chunk")
+		for _, c := range p.chunks {
+			_, _ = c.check()
+		}
+		vcover("accepted")
+	} else {
+		vcover("rejected")
+	}
+}
+
 // C03.L2: an arbitrary byte string (valid checksum, bounded length) delivered through
 // handleInbound to an association in any of its 8 states, with one chunk in flight and
 // one message held for reading: no runtime panic, the read loop is told to stop only by
@@ -155,3 +189,7 @@ func vh_C03_L4_forward_tsn_sanity() {
 	vassert(vLocksFree(a, held), "no lock is left held")
 	vcover("end")
 }
+
+// C03.L5: the reassembly queue fed with arbitrary chunks (any flags, sequence numbers, TSNs
+// of one window, duplicates) never panics and keeps its accounting (= C11.L1).
+func vh_C03_L5_reassembly_arbitrary_chunks() { vh_C11_L1_counter_exact() }
